@@ -21,6 +21,7 @@ mod ops_scalar;
 mod ops_edwards;
 mod ops_misc;
 mod ops_vec;
+#[cfg(feature = "ed")]
 mod ops_more;
 #[cfg(feature = "zeroize")]
 mod ops_mem;
@@ -73,6 +74,7 @@ fn dispatch(op: &str, e: &Value, ctx: &mut Ctx) -> Result<Value, String> {
         "sc" => ops_scalar::run(op, e, ctx),
         "ed" => ops_edwards::run(op, e, ctx),
         "vec" | "const" | "chk" => ops_vec::run(op, e, ctx),
+        #[cfg(feature = "ed")]
         "tot" | "serde" | "ff" | "grp" => ops_more::run(op, e, ctx),
         #[cfg(feature = "zeroize")]
         "mem" => ops_mem::run(op, e, ctx),
